@@ -32,7 +32,7 @@ class C05(vlib.HistoryProp):
                 "timed waits follow the due-time specification proved equal to the code-level timer in unit C06 (the scheduler is shared by model and specification)",
                 "a thread is a program of timed waits / pause+helper-resume, at most one sub-thread started with `local.sr = thread s<i>`, and one final statement (possibly `end local.sr`); values are opaque data of 9 kinds (NIL, int, float, string, NULL, listener, vector, array, const array) taken from fixed tables; parameters are observed through `println (typeof p) p` (no identity for listeners/arrays) and through `end local.p<j>` (full identity)",
                 "the host never assigns a result cell to itself and only touches result cells of records it still owns",
-                "after ScriptMaster::Reset the host only reads values that do not refer to the engine's string dictionary (string results are of the String type)"]
+                "after ScriptMaster::Reset the host only reads values that do not refer to the engine's string dictionary (string results are of the String type); ScriptMaster::Reset empties the variables of the level object (modelled: every level.q<k> reads NIL afterwards)"]
 
     # ---- generation -----------------------------------------------------------------
     def value(self, rng, kinds):
@@ -96,8 +96,17 @@ class C05(vlib.HistoryProp):
                 final = "r%d" % rng.randrange(0, max(np, nargs) + 2)
             else:
                 final = rng.choice(["x", "o"])
+        nptok = str(np)
+        if getattr(self, "level_params", False) and np > 0 and rng.random() < 0.3:
+            # parameters that may already hold a value: variables of the level object, repeated local names
+            tg = [rng.choice(["1", "2", "3", "v0", "v1", "v2"]) for _ in range(np)]
+            nptok = "@" + ".".join(tg)
+            if final[0] == "r":
+                final = rng.choice(["r1", "r2", "r3", "g0", "g1", "g2"])
+        elif getattr(self, "level_params", False) and final[0] in "ex" and rng.random() < 0.15:
+            final = rng.choice(["g0", "g1", "g2"])
         levels = [self.upper_level(rng) for _ in range(sublevels)] + [",".join(steps + [final])]
-        return "C %d %d %s %s" % (lbl, np, "/".join(levels), ",".join(args) if args else "-")
+        return "C %d %s %s %s" % (lbl, nptok, "/".join(levels), ",".join(args) if args else "-")
 
     def frames(self, rng, n):
         ops = []
@@ -113,6 +122,7 @@ class C05(vlib.HistoryProp):
 
     def walk(self, rng, length, maxlen, kinds9, cid, reset):
         ops, nrec = [], 0
+        self.level_params = True           # ScriptMaster::Reset empties the variables of the level object
         kinds = KIND9 if kinds9 else KIND6
         for _ in range(length):
             r = rng.random()
@@ -196,6 +206,26 @@ class C05(vlib.HistoryProp):
                     ops += post + ["T 1", "X", "Y 1", "T 9", "X", "X"]
                     cases.append(Case("k%d" % k, "", ops, "exhaustive-kill-%dholders" % nh))
                     k += 1
+        # parameters that already hold a value when the prologue runs: every declaration of 1..3 parameters over
+        # {local.p1, local.p2, level.q0, level.q1} (repeats included), called with decreasing arity on the same
+        # declaration, the level variables read back after every call
+        vals = ["i1", "s2", "f1", "i3"]
+        for n in (1, 2, 3):
+            for tg in itertools.product(["1", "2", "v0", "v1"], repeat=n):
+                if tier == "quick" and n == 3 and (k % 2):
+                    k += 1
+                    continue
+                ops = []
+                tok = "@" + ".".join(tg)
+                for ar in list(range(n + 1, -1, -1)) + [n]:
+                    fin = ["r1", "r2", "g0", "g1"][(ar + k) % 4]
+                    if ar == n and (k % 3) == 0:
+                        fin = "w1," + fin
+                    ops.append("C 1 %s %s %s" % (tok, fin, ",".join(vals[(i + ar) % 4] for i in range(ar)) if ar else "-"))
+                    ops += ["C 1 0 g0 -", "C 1 0 g1 -"]
+                ops += ["T 1", "X", "C 1 0 g0 -", "C 1 0 g1 -"]
+                cases.append(Case("q%d" % k, "", ops, "exhaustive-params-%d" % n))
+                k += 1
         # orders given to a PARKED thread by another thread: `t wait e` (re-arm / resume with a delay) and `t pause`
         # on a thread parked in a timed wait or paused, then kill / Reset / the delay elapses and the thread ends
         # with a value; 0..3 holders of the pending result
@@ -317,13 +347,16 @@ def branch_coverage(cases):
                     cov["calls"] += 1
                     nargs = 0 if w[4] == "-" else len(w[4].split(","))
                     cov["max_args"] = max(cov["max_args"], nargs)
-                    cov["max_params"] = max(cov["max_params"], int(w[2]))
+                    npar = len(w[2][1:].split(".")) if w[2].startswith("@") else int(w[2])
+                    if w[2].startswith("@"):
+                        cov["calls_with_level_or_repeated_params"] = cov.get("calls_with_level_or_repeated_params", 0) + 1
+                    cov["max_params"] = max(cov["max_params"], npar)
                     if parts[0] == "nolabel":
                         cov["nolabel"] += 1
                     else:
-                        if int(w[2]) > nargs:
+                        if npar > nargs:
                             cov["missing_args_nil"] += 1
-                        if int(w[2]) < nargs:
+                        if npar < nargs:
                             cov["extra_args_ignored"] += 1
                         new = [k for k in recs if k not in prev]
                         last = recs[new[0]] if new else []
@@ -354,6 +387,7 @@ def branch_coverage(cases):
 def check(res, tier, seed):
     res.cov["rule"] += ("C05: corpus; every argument list of length 0..3 over 6 value kinds x every parameter count 0..3 x 4 completion schedules "
                         "(sync, timed waits, pause+resume by a helper thread, killed) with copies/relocations of the pending record and a missing-label call; "
+                        "parameters that already hold a value (targets on the level object, repeated local names; every declaration of 1..3 parameters over 4 targets called with decreasing arity, the persistent variables read back after every call); "
                         "orders to a parked thread from another thread (`t wait e` with e > 0, `t pause`; parked in a timed wait / paused; then kill, Reset or end with a value; 0..3 holders); "
                         "results that are pending results of sub-threads (`local.sr = thread s1` ... `end local.sr`): 12 forwarding threads x 15 sub-threads/chains x 8 patterns of host copies, destructions and Reset around every event; "
                         "a thread destroyed before its end (deleted while parked in a pause/wait, Reset; destroyed while executing: self-delete inside the call / after a wait, deleted by a thread it starts at depth 1 and 2, by an endon) with 0..4 holders and copies made before/after; "
